@@ -43,6 +43,7 @@ class TestGen:
         self.iter_product = 1
         self.in_loop_slots = set()
         self.sub_slots = set()
+        self.top_used = False
 
     def lab(self, p):
         self.nlabel += 1
@@ -98,7 +99,7 @@ class TestGen:
         rng = self.rng
         for _ in range(50):
             k = rng.choice(["load", "load", "store", "store", "transfer", "incdec", "incdec", "logic", "arith", "arith", "compare",
-                            "bit", "shift", "flag", "stack", "nop", "rmw", "idxstore"])
+                            "bit", "shift", "flag", "stack", "nop", "rmw", "idxstore", "topstore"])
             if k == "load":
                 m = rng.choice(["lda", "ldx", "ldy"])
                 if {"lda": "a", "ldx": "x", "ldy": "y"}[m] in reserved:
@@ -121,6 +122,14 @@ class TestGen:
                 else:
                     op = rng.choice([self.zp(), self.data_ref()])
                 self.emit("%s %s" % (m, op), "store")
+                return
+            if k == "topstore":
+                # the last bytes of the address space (the IRQ/BRK vector); absolute, never indexed
+                m = rng.choice(["sta", "stx", "sty", "inc", "lda", "ora"])
+                if m in ("lda", "ora") and "a" in reserved:
+                    continue
+                self.emit("%s $%04x" % (m, rng.choice([0xFFFF, 0xFFFE, 0xFFFE, 0xFFFD, 0xFFFC])), "topstore")
+                self.top_used = True
                 return
             if k == "idxstore":
                 # indexed zero-page / (zp,x) stores with a known index, so that pointers and counters stay intact
@@ -567,6 +576,24 @@ def templates(rng, st, consts_in_scope, labels, prev_text):
     c.append(("(ram16($f2) >> 8) == ram($f3)", 1))
     c.append(("(ram16($f2) % 256) == ram($f2)", 1))
     c.append(("ram($1%02x) >= 0" % ((sp + 1) & 255), 1))
+    # the top of the address space: ram() is defined up to $ffff, ram16() up to $fffe; addresses are taken mod 65536
+    c.append(("ram($ffff) == ram($ffff)", 1))
+    c.append(("ram16($fffe) == (ram($fffe) + 256 * ram($ffff))", 1))
+    c.append(("ram16($fffd) == (ram($fffd) + 256 * ram($fffe))", 1))
+    c.append(("(ram16($fffe) >> 8) == ram($ffff)", 1))
+    c.append(("ram($ffff) < 256", 1))
+    c.append(("ram16($ffff) >= 0", 0))            # the word leaves the memory: no value, the assertion fails
+    c.append(("defined(ram16($ffff))", 0))
+    c.append(("ram($10000) == ram(0)", 1))
+    c.append(("ram($1ffff) == ram($ffff)", 1))
+    c.append(("ram(-1) == ram($ffff)", 1))
+    c.append(("ram16(-2) == ram16($fffe)", 1))
+    c.append(("ram16(-1) >= 0", 0))
+    c.append(("ram(-65536) == ram(0)", 1))
+    m = re.match(r"(sta|stx|sty) (\$ff[0-9a-f]{2})$", prev_text or "")
+    if m:
+        c.append(("ram(%s) == cpu.%s" % (m.group(2), m.group(1)[2]), 1))
+        c.append(("ram(%s) == cpu.%s" % (m.group(2), m.group(1)[2]), 1))
     m = re.match(r"sta (\$[0-9a-f]{2})$", prev_text or "")
     if m:
         c.append(("ram(%s) == cpu.a" % m.group(1), 1))
@@ -670,7 +697,7 @@ def choose_inserts(rng, prj, t, sym, steps):
                  "text": ".assert" + pad + text + ((" \"%s\"" % msg) if msg else ""), "expr_at": len(".assert" + pad)}
             items.append(d)
             remaining -= 1
-            for key in ("ram16(", "ram(", "cpu.flags.", "cpu.sp", "*", "defined(", "\"", "<<", "/", "%"):
+            for key in ("$ffff", "$fffe", "(-", "$10000", "ram16(", "ram(", "cpu.flags.", "cpu.sp", "*", "defined(", "\"", "<<", "/", "%"):
                 if key in text:
                     info.setdefault("forms", {})
                     info["forms"][key] = info["forms"].get(key, 0) + 1
